@@ -4,7 +4,7 @@
 From Coq Require Import ZArith List Bool Lia Permutation.
 From MV Require Import Ast Eval Scalar Machine EquivDefs Prims EquivTac EquivElem EquivPop EquivRemove EquivInsert EquivSwapRemove EquivIter EquivExtSlice EquivExtend DrainAt EquivDropGuard.
 From MV.Gen Require Import AstGen.
-From MV.Proofs Require Import Arith Logic Prim View OpsLocal Guards Grow CapHistory Drops Retain DrainIt Sentinel Core Refine IterAt Resize Clone CloneSlice Extend DrainGuardAt.
+From MV.Proofs Require Import Arith Logic Prim View OpsLocal Guards Grow CapHistory Drops Retain DrainIt Sentinel Core Refine IterAt Resize Clone CloneSlice Extend DrainGuardAt SplitOff.
 Import ListNotations.
 Open Scope list_scope.
 Open Scope Z_scope.
@@ -205,5 +205,36 @@ Section SourceSpecs.
     rewrite (dropguard_drop_equiv cfg ncap i0 s (S (Z.to_nat (j - i))) F HF).
     - unfold lift_m. destruct (drain_guard_at cfg (S (Z.to_nat (j - i))) i0 s) as [[a| | | | |] s']; simpl in *; tauto.
     - intros E. destruct (drain_guard_at cfg (S (Z.to_nat (j - i))) i0 s) as [[a| | | | |] s']; simpl in *; try discriminate. exact H.
+  Qed.
+  (* FromIterator::from_iter over ANY iterator script, as regenerated (`let v = MiniVec::new(); for x in
+     it { v.push(x) }; v`): a NEW vector holding exactly the elements yielded before the first None, in
+     order; nothing that existed before is touched -- also when the iterator or a push panics (what the
+     body leaves to Rust's drop glue then is the local vector) *)
+  Theorem from_iter_source s sc F :
+    (S (List.length sc) <= F)%nat ->
+    let '(n, p) := yields sc in
+    match run_from_iter cfg ncap (FUEL + F) sc s with
+    | (Norm r, s') =>
+        p = false /\ r = VObj (List.length (vecs s)) /\
+        vabs cfg s' (List.length (vecs s)) (zseq (next_elem s) n) /\
+        next_elem s' = next_elem s + Z.of_nat n /\
+        (forall e, e < next_elem s -> ledger s' e = ledger s e)
+    | (Panic, s') => forall e, e < next_elem s -> ledger s' e = ledger s e
+    | (Fail FAbort, _) | (Fail (FAllocAbort _ _), _) => True
+    | _ => False
+    end.
+  Proof.
+    intros HF.
+    pose proof (fun s1 w Hab => extend_abs cfg ncap Hcfg Hpol Htracked s1 w [] sc Hab) as H.
+    destruct (yields sc) as [n p].
+    rewrite from_iter_equiv by exact HF.
+    unfold lift_m, from_iter_body, new_obj. cbv [bind get ret].
+    set (w := List.length (vecs s)).
+    destruct (new_vec_spec cfg Hcfg s w) as (s1 & Hn & Hsen & _ & Hled & Hnext & _).
+    rewrite Hn.
+    specialize (H s1 w (or_introl (conj Hsen eq_refl))).
+    rewrite Hnext, Hled in H. cbn [app] in H.
+    destruct (extend cfg ncap w sc s1) as [[a| | | | |] s']; simpl in *; try tauto.
+    destruct H as (k & _ & _ & Hl & _). exact Hl.
   Qed.
 End SourceSpecs.
